@@ -295,3 +295,19 @@ func chOr1(ch int) int {
 func histDep(name, msg string) F {
 	return F{Key: name + "/history-dependent", Msg: msg + " (the implementation's result depends on conversions made before)"}
 }
+
+// instOrder lists all 169 (source, destination) pairs; the reverse-order pass visits them backwards.
+func instOrder() [][2]int {
+	var r [][2]int
+	for s := 0; s < dyn.NB; s++ {
+		for d := 0; d < dyn.NB; d++ {
+			r = append(r, [2]int{s, d})
+		}
+	}
+	if core.Reversed() {
+		for i, j := 0, len(r)-1; i < j; i, j = i+1, j-1 {
+			r[i], r[j] = r[j], r[i]
+		}
+	}
+	return r
+}
